@@ -119,6 +119,9 @@ def run(ctx):
     # value ranges / SIZE written at the point of use of a shared referenced type, for members that share a name
     from .. import aliasfam
     aliasfam.run_c11(ctx, ctx.rng, ctx.n(50, 600), impl, ['ber', 'uper', 'oer', 'jer'])
+    # permitted-alphabet constraints FROM (...) against an independent reading of the permitted set
+    from .. import fromfam as _fromfam
+    _fromfam.run(ctx, 'C11', ctx.rng, ctx.n(40, 600))
 
 
 def add_serial(rng, t):
